@@ -12,11 +12,15 @@ IsEvent(e) == l <= Len(TraceLog) /\ TraceLog[l].e = e /\ l' = l + 1
 TInit == l = 1 /\ IInit
 TIni == IsEvent("Ini") /\ IniObligations(ev.keys, ev.msgs, ev.out) /\ UNCHANGED ivars
 TOneLine == IsEvent("OneLine") /\ OneLineObligations(ev.hasPath, ev.msgs, ev.out) /\ UNCHANGED ivars
-TReset == IsEvent("Reset") /\ cur' = "default" /\ saved' = "none" /\ first' = "none"
+TReset == IsEvent("Reset") /\ cur' = "default" /\ saved' = "none" /\ first' = "none" /\ active' = "none" /\ alive' = Loggers
 TOp == /\ IsEvent("Op")
-       /\ CASE ev.op \in {"install", "install2"} -> Install
+       /\ CASE ev.op = "install" -> InstallBy("a")
+            [] ev.op = "install2" -> InstallBy("b")
             [] ev.op = "restore" -> Restore
             [] ev.op \in {"f1", "f2"} -> Foreign(ev.op)
+            [] ev.op = "kill" -> Kill("a")
+            [] ev.op = "kill2" -> Kill("b")
+            [] ev.op = "log" -> UNCHANGED ivars /\ ev.rcv = Receiver      \* a message through Qt's macros: who saw it
        /\ cur' = ev.cur
 TraceSpec == TInit /\ [][TIni \/ TOneLine \/ TReset \/ TOp]_<<ivars, l>>
 TraceAccepted ==
